@@ -205,7 +205,7 @@ fn configs(prop: &str, thorough: bool) -> Vec<(Cfg, Option<usize>)> {
                 c.inc_exps = if thorough {
                     vec![ExpA::Unset, ExpA::Never, ExpA::H(H0), ExpA::H(H0 + 1), ExpA::H(H0 + 2), ExpA::T(T0), ExpA::T(T0 + DT)]
                 } else {
-                    vec![ExpA::Unset, ExpA::Never, ExpA::H(H0), ExpA::H(H0 + 1), ExpA::T(T0 + 2 * DT)]
+                    vec![ExpA::Unset, ExpA::Never, ExpA::H(H0), ExpA::H(H0 + 1), ExpA::T(T0), ExpA::T(T0 + 2 * DT)]
                 };
                 c.dec_exps = if thorough { vec![ExpA::Unset, ExpA::H(H0 + 1), ExpA::H(H0 + 2), ExpA::T(T0)] } else { vec![ExpA::Unset, ExpA::H(H0 + 1)] };
                 c.exec_callers = vec![S1, S2];
